@@ -297,7 +297,7 @@ func init() {
 		Thorough: []Job{bjob("ZZBatchedStep", "step-3keys-3getkeys", map[string]int64{"nk": 3, "getkeys": 3}, []string{"step-done"}, "as quick with 3 keys and gets of 1-3 keys")}})
 	reg(Check{ID: "C13", Level: "model_checking", Assumptions: append([]string{
 		"connection loss = the backend closes the pooled connection before / after / inside (5 cut positions) the reply to request 0..2 of the connection; reconnect() dials the (substituted) socket at once; back-off timing, refused reconnects and kernel-level detection of idle cuts are outside the claim",
-		"commands: get / gete of 1-3 keys over 2 keys (duplicates, every quiet pattern), set, touch with relative TTL (the transparent retry is at-least-once by design: non-idempotent commands are outside the bound)",
+		"commands: get / gete of 1-3 keys over 2 keys (duplicates, every quiet pattern), set, touch and get-and-touch with relative TTL (the transparent retry is at-least-once by design: non-idempotent commands are outside the bound)",
 	}, batchedAssumptions...),
 		Quick: []Job{bjob("ZZBatchedConnLoss", "", nil, []string{"call-returned", "connection-was-cut", "pool-serves-again"}, "one caller, pool of one connection, batch size 1: exactly one outcome per call -- an error, or every requested key answered exactly once with its own data after the transparent retry; afterwards the pool serves a further get correctly"),
 			bjob("ZZBatchedConnLossTwo", "", nil, []string{"both-callers-returned", "connection-was-cut", "pool-serves-again"}, "two callers in one batch (A: delete/touch/add/replace/gat on key 0, any presence; B: get key 1), connection cut before / after / inside the second or third reply: both callers return, B gets an error or its own data, the pool serves again"),
